@@ -239,6 +239,41 @@ impl IceConn {
         *self.remote_addr.write() = addr;
     }
 
+    /// Verification wrappers (no logic) around the two crate-private setters.
+    #[cfg(rustrtc_verif)]
+    pub fn verif_set_remote_addr_from_selected_pair(&self, addr: SocketAddr) {
+        self.set_remote_addr_from_selected_pair(addr, "verif");
+    }
+
+    #[cfg(rustrtc_verif)]
+    pub fn verif_set_remote_addr_from_signaling(&self, addr: SocketAddr) {
+        self.set_remote_addr_from_signaling(addr, "verif");
+    }
+
+    /// Verification snapshot of the probation table: per candidate
+    /// (addr, first_seq, last_seq, packet_count, consecutive_count, has_marker), plus total.
+    #[cfg(rustrtc_verif)]
+    pub fn verif_latch_snapshot(&self) -> Option<(Vec<(SocketAddr, u16, u16, u8, u8, bool)>, u8)> {
+        self.probation.lock().as_ref().map(|p| {
+            (
+                p.candidates
+                    .iter()
+                    .map(|c| {
+                        (
+                            c.addr,
+                            c.first_seq,
+                            c.last_seq,
+                            c.packet_count,
+                            c.consecutive_count,
+                            c.has_marker,
+                        )
+                    })
+                    .collect(),
+                p.total_packets,
+            )
+        })
+    }
+
     pub(crate) fn set_remote_addr_from_signaling(&self, addr: SocketAddr, reason: &'static str) {
         self.reset_latch();
         *self.remote_addr.write() = addr;
